@@ -103,10 +103,10 @@ def attribute_value(scanner: Scanner):
     return eat_quoted(scanner, quoted_opt) or consume_paired(scanner) or unquoted(scanner)
 
 
-def get_attribute_value(attrs: list, name: str):
+def get_attribute_value(attrs: list, name: str, ignore_case=False):
     "Returns clean (unquoted) value of `name` attribute"
     for attr in attrs:
-        if attr.name == name:
+        if attr.name == name or (ignore_case and attr.name.lower() == name):
             return attr.value and get_unquoted_value(attr.value)
 
 
